@@ -266,6 +266,12 @@ class Interp:
         if len(args) > len(names):
             if a.vararg is None:
                 return Unk('too many arguments for %s' % fi.qual, node)
+        if a.vararg is not None:
+            env[a.vararg.arg] = tuple(args[len(names):])          # *args: the positional arguments beyond the named ones
+        if a.kwarg is not None:
+            kwnames_ = {x.arg for x in a.kwonlyargs} | set(names)
+            env[a.kwarg.arg] = {k: v for k, v in kwargs.items() if k not in kwnames_}
+            kwargs = {k: v for k, v in kwargs.items() if k in kwnames_}
         for k, v in kwargs.items():
             env[k] = v
         for n, d in fi.defaults().items():
@@ -845,7 +851,42 @@ class Interp:
                 return True
         return False
 
+    def class_attr(self, ci, name):
+        """value of an attribute assigned in the body of class ``ci`` or one of its bases (evaluated once: the same object for every instance), or _MISSING"""
+        cache = self.__dict__.setdefault('_clsattrs', {})
+        for c in self.repo.mro(ci):
+            if name in c.class_attrs:
+                key = (c.qual, name)
+                if key not in cache:
+                    cache[key] = _MISSING            # guards against re-entry while it is being evaluated
+                    try:
+                        v = self.expr(c.class_attrs[name], {'__module__': c.module}, c.module)
+                    except (Raised, PyRaise):
+                        v = Unk('class attribute %s.%s' % (c.name, name))
+                    cache[key] = v
+                    if isinstance(v, Obj) and v.cls is not None:
+                        sn = self.repo.find_member(v.cls, '__set_name__')
+                        if sn is not None and sn[0] == 'method':
+                            self.call(sn[1], [ClassRef(c), name], selfv=v)
+                return cache[key]
+        return _MISSING
+
+    def _descriptor(self, o, name, which):
+        """the descriptor object bound to ``name`` in the class of ``o`` and its ``which`` (__get__ / __set__) method, or None"""
+        if o.cls is None or not any(name in c.class_attrs for c in self.repo.mro(o.cls)):
+            return None
+        d = self.class_attr(o.cls, name)
+        if isinstance(d, Obj) and d.cls is not None:
+            m = self.repo.find_member(d.cls, which)
+            if m is not None and m[0] == 'method':
+                return d, m[1]
+        return None
+
     def setattr(self, o, name, val, node, mod):
+        ds = self._descriptor(o, name, '__set__') if isinstance(o, Obj) else None
+        if ds is not None:
+            self.call(ds[1], [o, val], selfv=ds[0], node=node)          # a data descriptor of the class: its __set__ decides what is stored
+            return
         if o.cls is not None:
             setter = self.repo.find_setter(o.cls, name)
             if setter is not None:
@@ -857,6 +898,9 @@ class Interp:
         o.attrs[name] = val
 
     def getattr(self, o, name, node, mod):
+        dg = self._descriptor(o, name, '__get__') if o.cls is not None and any(name in c.class_attrs for c in self.repo.mro(o.cls)) else None
+        if dg is not None and (name not in o.attrs or self.repo.find_member(dg[0].cls, '__set__') is not None):
+            return self.call(dg[1], [o, ClassRef(o.cls)], selfv=dg[0], node=node)          # a descriptor of the class (a data descriptor wins over the instance)
         if name in o.attrs:
             return o.attrs[name]
         if o.cls is not None:
@@ -869,9 +913,9 @@ class Interp:
                 if 'staticmethod' in m[1].decorators:
                     return FuncRef(m[1])
                 return Bound(m[1], o)
-            for c in self.repo.mro(o.cls):
-                if name in c.class_attrs:
-                    return self.expr(c.class_attrs[name], {'__module__': c.module}, c.module)
+            cv = self.class_attr(o.cls, name)
+            if cv is not _MISSING:
+                return cv
             if not name.startswith('__') and self.depth < 8:
                 dyn = self.repo.find_member(o.cls, '__getattr__')
                 if dyn is not None and dyn[0] == 'method':
@@ -1164,8 +1208,35 @@ class Interp:
         it = self.repo.find_member(o.cls, '__iter__') if o.cls is not None else None
         if it is not None and it[0] == 'method':
             r = self.call(it[1], [], selfv=o, node=node)
+            if isinstance(r, Obj) and r.cls is not None and self.repo.find_member(r.cls, '__next__') is not None:
+                return self._drain(r, node)
             return r
+        if o.cls is not None and self.repo.find_member(o.cls, '__next__') is not None:
+            return self._drain(o, node)
         return Unk('iteration over %r' % (o,), node)
+
+    def _drain(self, it, node):
+        """an iterator object of a repo class: __next__ called until it raises StopIteration (bounded)"""
+        nx = self.repo.find_member(it.cls, '__next__')[1]
+        out = []
+        for _ in range(64):
+            try:
+                v = self.call(nx, [], selfv=it, node=node)
+            except PyRaise as pr:
+                if pr.exc == 'StopIteration':
+                    return out
+                raise
+            except Raised as rz:
+                nd_ = getattr(rz, 'node', None)
+                if isinstance(nd_, ast.Raise) and nd_.exc is not None and (chain(nd_.exc.func if isinstance(nd_.exc, ast.Call) else nd_.exc) or '').split('.')[-1] == 'StopIteration':
+                    return out
+                raise
+            if isinstance(v, Unk):
+                if 'always raises' in v.why and getattr(v, 'exc', None) == 'StopIteration':
+                    return out
+                return v
+            out.append(v)
+        return Unk('an iterator that does not stop within 64 items', node, definite=True)
 
     def module_value(self, mod, name):
         """value of a module-level name: the module body's simple statements (assignments to names, stores into their items,
@@ -1642,6 +1713,9 @@ class Interp:
                 if 'classmethod' in m[1].decorators:
                     return Bound(m[1], v)
                 return FuncRef(m[1])
+            cv_ = self.class_attr(v.ci, name)
+            if cv_ is not _MISSING:
+                return cv_
             return Unk('class attribute %s.%s' % (v.ci.name, name), e)
         if isinstance(v, Marker):
             if v.name in ('numpy', 'np') and name == 'newaxis':
@@ -1872,7 +1946,13 @@ class Interp:
                     lo = None
                 if stp == 1 and not isinstance(stp, bool):
                     stp = None
-                if lo is None and hi is None and stp is None:
+                if lo is None and hi is None and isinstance(stp, Arr) and stp.ndim == 0 and stp.mask is None and not stp.poly.is_const() \
+                        and _is_boolean((Poly.const(1) - stp.poly) * Fraction(1, 2)):
+                    # x[::s] with s = -1 under a condition and +1 otherwise: the array, reversed exactly when the condition holds
+                    c_ = (Poly.const(1) - stp.poly) * Fraction(1, 2)
+                    poly = poly + c_ * (alg.array_fn('rev', lab, poly) - poly)
+                    dims.append(lab)
+                elif lo is None and hi is None and stp is None:
                     dims.append(lab)
                 elif lo is None and hi is None and stp == -1:
                     poly = alg.array_fn('rev', lab, poly)
@@ -2438,6 +2518,21 @@ class Interp:
                 return Unk('np.unique', e)
             return Unk('numpy.%s' % last, e)
         if root == 'builtins':
+            if last in ('all', 'any') and len(args) == 1 and isinstance(args[0], (list, tuple)) and not kw:
+                # all / any of a concrete sequence of truth values: decided when every one is, else their conjunction / disjunction
+                tv_ = [self._truth(x_) for x_ in args[0]]
+                if all(t_ is not None for t_ in tv_):
+                    return (all if last == 'all' else any)(tv_)
+                if (last == 'all' and any(t_ is False for t_ in tv_)) or (last == 'any' and any(t_ is True for t_ in tv_)):
+                    return last == 'any'
+                p_ = Poly.const(1) if last == 'all' else Poly()
+                for x_, t_ in zip(args[0], tv_):
+                    if t_ is not None:
+                        continue
+                    if not (isinstance(x_, Arr) and x_.ndim == 0 and x_.mask is None and _is_boolean(x_.poly)):
+                        return Unk('%s of a sequence holding %r' % (last, x_), e)
+                    p_ = p_ * x_.poly if last == 'all' else alg.b_or(p_, x_.poly)
+                return Arr((), p_)
             if last == 'len':
                 x = args[0]
                 if isinstance(x, (list, tuple, dict, str)):
